@@ -124,9 +124,9 @@ def gen_program(tape, phase):
             nops = 1 + tape.draw(3, 'nops')
             ops = []
             for _ in range(nops):
-                kind = tape.weighted([(10, 'store'), (2, 'store_input'), (1, 'store_final'), (4, 'log'),
-                                      (2, 'annotate'), (2, 'metadata'), (2, 'localfile'),
-                                      (5, 'retrieve'), (1, 'db_store_model'), (2, 'retrieve_log')], 'op')
+                kind = tape.weighted([(12, 'store'), (2, 'store_input'), (1, 'store_final'), (3, 'log'),
+                                      (2, 'annotate'), (3, 'metadata'), (2, 'localfile'),
+                                      (7, 'retrieve'), (1, 'db_store_model'), (1, 'retrieve_log')], 'op')
                 m = chosen[tape.draw(len(chosen), 'op.model')]
                 uid[0] += 1
                 if kind in ('store_input', 'store_final'):
